@@ -46,7 +46,7 @@ theorem codec_roundtrip (cfg : EncCfg) (dcfg : DecCfg) (pf : Profile) (o : EncOp
   obtain ⟨w, hd, hv, _⟩ := complete_ty pf dcfg hC t v x (reg_plain true cfg _ t hreg) hwf hber
   have hok : x.okFor dcfg.parse := by
     rcases hparse with hp | hp
-    · exact Or.inr (hxd hp)
+    · exact Or.inr (lenForm_allDef hxd hp)
     · exact Or.inl hp
   have hpo := parseOne_ser dcfg.parse x tail hxw hok
   refine ⟨w, ?_, hv⟩
